@@ -179,6 +179,9 @@ def check_c18(prop, tier, seed):
                 ad = fmt.asymmetric_topology(d)
                 if ad is not None:
                     bases.append((2000 + i, ad, n + "-one-directional-link"))
+                sd = fmt.superfluous_rule(d)
+                if sd is not None:
+                    bases.append((3000 + i, sd, n + "-superfluous-rule"))
         mwd = os.path.join(wd, "mut")
         os.makedirs(mwd)
         muts, rgen = fmt.gen_mutants([(i, d) for i, d, n in bases], mwd)
